@@ -188,7 +188,7 @@ func runOne(lab *c10lab.Lab, oc *opCase, text, vars string, chooser c10lab.Choos
 						}
 					}
 					if oc.dropped[strings.Join(names, "/")] {
-						diag = "anchor-first-occurrence"
+						diag = "anchor-below-mount"
 					}
 				}
 			} else if strings.Contains(fails[i].Detail, "addresses nothing in the data delivered so far: /") {
